@@ -39,6 +39,11 @@ def bound(tier):
     return {'scope_types': 16, 'rows': 'complete'}
 
 
+class CallerError(Exception):
+    def __init__(self, *a, **k):
+        super().__init__('caller')
+
+
 def ref(scope_types, has_sys, has_dom, enforce_scope, check_allows):
     """-> 'allow' | 'deny' | 'scope' (gated by scope)."""
     token = 'system' if has_sys else 'domain' if has_dom else 'project'
@@ -343,21 +348,28 @@ def _rows(acc, P, enf, rule, how, st, enforce_scope, check_allows, override,
                 for absent in absents:
                     exp = ref(st, has_sys, has_dom, enforce_scope,
                               check_allows)
-                    for do_raise in (False, True):
+                    # do_raise off, on, and on with the caller's own
+                    # exception class (which replaces PolicyNotAuthorized;
+                    # a scope mismatch stays InvalidScope)
+                    for do_raise, exc in ((False, None), (True, None),
+                                          (True, CallerError)):
                         creds = make_creds(rep, has_sys, has_dom, has_proj,
                                            spelling, absent, role)
                         acc.case('table', bool(st))
                         acc.ev()
                         try:
                             r = enf.enforce(rule, {}, creds,
-                                            do_raise=do_raise)
+                                            do_raise=do_raise, exc=exc)
                             got = 'allow' if r else 'deny'
                             if do_raise and not r:
                                 got = 'falsy-return-under-do_raise'
                         except P.InvalidScope:
                             got = 'scope' if do_raise else 'InvalidScope!'
                         except P.PolicyNotAuthorized:
-                            got = 'deny' if do_raise else 'NotAuthorized!'
+                            got = 'deny' if do_raise and exc is None \
+                                else 'NotAuthorized!'
+                        except CallerError:
+                            got = 'deny' if exc else 'CallerError!'
                         except Exception as e:
                             got = 'raises ' + type(e).__name__
                         want = exp
@@ -377,6 +389,7 @@ def _rows(acc, P, enf, rule, how, st, enforce_scope, check_allows, override,
                                  'dom': has_dom, 'proj': has_proj,
                                  'rep': rep, 'spelling': spelling,
                                  'absent': absent, 'do_raise': do_raise,
+                                 'exc': exc and exc.__name__,
                                  'enforce_scope': enforce_scope,
                                  'check_allows': check_allows,
                                  'override': override, 'how': how},
